@@ -354,6 +354,7 @@ struct ProgStreamState {
     idx: usize,
     peer: Peer,
     done: bool,
+    ended_clean: bool,
 }
 
 impl ProgStreamState {
@@ -370,6 +371,7 @@ impl ProgStreamState {
             idx,
             peer,
             done: false,
+            ended_clean: false,
         }
     }
 
@@ -383,10 +385,17 @@ impl ProgStreamState {
             }
         }
         if self.done {
+            // `MessageBody::poll_next`: once `Ready(None)` was returned the body must not be
+            // polled again (it "may panic, block forever, or cause other kinds of problems"): this
+            // body is one of those that panic. After an error it just stays ended.
+            if self.ended_clean {
+                panic!("response body polled again after it had returned Ready(None)");
+            }
             return Poll::Ready(None);
         }
         if self.next >= self.prog.chunks.len() {
             self.done = true;
+            self.ended_clean = !self.prog.fail_at_end;
             let mut l = self.log.borrow_mut();
             let r = &mut l.resps[self.idx];
             r.ended = true;
